@@ -165,8 +165,17 @@ class HdfSerializable(ABC):
                 Path (:obj:`str` or :obj:`pathlib.Path`) to HDF5 file to
                 serialise into, see also :meth:`from_file()`.
         """
-        with h5py.File(str(path), mode="w") as f:
-            self.to_hdf(f)
+        # write to a temporary file first: if serialising is interrupted, the
+        # context manager would still close a file that holds only a part of the
+        # data, which can be read back without any error
+        temp_path = Path(f"{path}.tmp")
+        try:
+            with h5py.File(str(temp_path), mode="w") as f:
+                self.to_hdf(f)
+        except BaseException:
+            temp_path.unlink(missing_ok=True)
+            raise
+        temp_path.replace(path)
 
 
 class AsciiSerializable(ABC):
